@@ -763,6 +763,16 @@ fn pick_next<M: AsRef<[Machine]>>(
     let target = current_time + s;
     let act = do_scheduled_action(client, server, target);
     if let Some(a) = act {
+        if a.integration_delay == Duration::default() {
+            // the action was strictly the earliest item and takes effect at
+            // its own time: its event is the next event. Queueing it and
+            // picking again would let whatever the action's effect makes
+            // eligible (a block expiry of zero duration, packets released by a
+            // now bypassable block) overtake the event that reports it, and a
+            // Cancel or newer action triggered that way would find the slot
+            // already empty.
+            return Some(a);
+        }
         sq.push_sim(a.clone());
     }
     pick_next(sq, client, server, network, current_time)
